@@ -98,7 +98,7 @@ def replay (j : Json) : R Verdict := do
   match (fieldD exp "starts").getNat?.toOption with
   | some n =>
     if starts.length != n then
-      let p := if n == 0 then "C16" else "C03"
+      let p := if n == 0 && family != "budget-zero" then "C16" else "C03"
       pf := (p, s!"{starts.length} evaluations were started, expected {n} ({family})") :: pf
       if family == "cli-invalid" && (fieldD exp "which").getNat?.toOption.getD 99 ∈ [4, 5, 6, 9, 10] then
         pf := ("C11", "an evaluation was started although the initial guess is invalid") :: pf
@@ -174,6 +174,16 @@ def replay (j : Json) : R Verdict := do
       let nonFinite := ((fieldD (fieldD j "plan") "seeds").compress.splitOn "1e999").length > 1
       if !nonFinite && !(hasFile "failed_obj_func_arg" && hasFile "failed_obj_func_stdout" && hasFile "failed_obj_func_stderr") then
         pf := ("C16", "failing child with an output directory: diagnostic files missing") :: pf
+      -- ... and they hold exactly the bytes the failing child wrote (whatever their encoding)
+      for (fname, key) in [("failed_obj_func_stdout", "stdout_hex"), ("failed_obj_func_stderr", "stderr_hex")] do
+        let planSeeds := fieldD (fieldD j "plan") "seeds"
+        let wrote := match planSeeds.getObj? with
+          | .ok o => (o.toList.filterMap (fun (_, b) => (fieldD b key).getStr?.toOption)).head?
+          | .error _ => none
+        match wrote, (fieldD (fieldD files fname) "hex").getStr?.toOption with
+        | some w, some got => if hasFile fname && w != got then
+            pf := ("C16", s!"{fname} does not hold the bytes the failing child wrote: child {w.take 40}, file {got.take 40} (hex)") :: pf
+        | _, _ => pure ()
     match (fieldD obs "sentinelIntact").getBool?.toOption with
     | some intact =>
       if outMode == 2 && !intact then pf := ("C16", "existing output directory was modified although --force was not given") :: pf
